@@ -96,6 +96,49 @@ func reencode(kind refcose.Kind, wire []byte, discard bool) ([]byte, error, erro
 	return out, nil, err
 }
 
+type codecMsg interface {
+	UnmarshalCBOR([]byte) error
+	MarshalCBOR() ([]byte, error)
+}
+
+// reencodeUsed: like reencode, but the destination variable held another message (attached payload,
+// a kid, a signature) before - a consumer decoding a stream of messages into one variable.
+func reencodeUsed(kind refcose.Kind, wire []byte) ([]byte, error, error) {
+	layer := []byte{0x83, 0x43, 0xa1, 0x01, 0x26, 0xa1, 0x04, 0x41, 0x09, 0x41, 0x01}
+	s1 := append([]byte{0xd2, 0x84, 0x43, 0xa1, 0x01, 0x26, 0xa1, 0x04, 0x41, 0x09, 0x48}, "previous"...)
+	s1 = append(s1, 0x41, 0x01)
+	sm := append([]byte{0xd8, 0x62, 0x84, 0x40, 0xa1, 0x04, 0x41, 0x09, 0x48}, "previous"...)
+	sm = append(append(sm, 0x81), layer...)
+	var v codecMsg
+	var prior []byte
+	switch kind {
+	case refcose.KSign1:
+		v, prior = &cose.Sign1Message{}, s1
+	case refcose.KSign1Untagged:
+		v, prior = &cose.UntaggedSign1Message{}, s1[1:]
+	case refcose.KSign:
+		v, prior = &cose.SignMessage{}, sm
+	case refcose.KSignature:
+		v, prior = &cose.Signature{}, layer
+	case refcose.KCountersignature:
+		v, prior = &cose.Countersignature{}, layer
+	default:
+		return nil, fmt.Errorf("unsupported kind"), nil
+	}
+	if err := v.UnmarshalCBOR(prior); err != nil {
+		return nil, nil, fmt.Errorf("harness: prior message: %v", err)
+	}
+	buf := append([]byte{}, wire...)
+	if err := v.UnmarshalCBOR(buf); err != nil {
+		return nil, err, nil
+	}
+	for i := range buf {
+		buf[i] ^= 0xa5
+	}
+	out, err := v.MarshalCBOR()
+	return out, nil, err
+}
+
 // checkC09 replays the history.
 func checkC09(c c09Case) error {
 	cur := []byte(c.Wire)
@@ -145,6 +188,12 @@ func checkC09(c c09Case) error {
 			if len(rc.DeterminismIssues(mustParse(cur))) == 0 && !bytes.Equal(got, cur) {
 				return finding("deterministic-input-changed", "step %d: deterministically encoded input changed\n in=%x\nout=%x", i, cur, got)
 			}
+			// the same through a variable that held another message before
+			gotU, derrU, eerrU := reencodeUsed(c.Kind, cur)
+			if derrU != nil || eerrU != nil || !bytes.Equal(gotU, got) {
+				return finding("reencode-differs/used-variable", "step %d: decoding into a variable that held another message and encoding it again gives another result (decode: %v, encode: %v) than with a fresh variable\n   in=%x\nfresh=%x\n used=%x", i, derrU, eerrU, cur, got, gotU)
+			}
+			stats.Class("cycle-through-a-used-variable")
 			cur = got
 			cycles++
 		case "verify-envelope":
